@@ -18,12 +18,7 @@ BOUNDS = {
 ASSUMPTIONS = [
     "oracle = source of encoding/json of the Go toolchain the engine loads (go1.26.8), executed symbolically next to the v1 code",
     "sync.Pool (jsontext decoder/encoder pools, encoding/json scanner pool) modelled sequentially by the engine",
-    "Indent with a non-blank prefix and an empty indent (pair (\">\",\"\")): v1.Indent does not return when a rewritten run of spaces is "
-    "longer than the prefix (sub-case of known finding KF-C09-indent-trailing-ws; natively too). A bounded run cannot report "
-    "non-termination as a value, so for that pair every input that contains a newline followed by more than len(prefix) spaces is cut "
-    "by an assumption (over-approximation of the hanging inputs). Disagreements inside the rest of the finding's region (valid input "
-    "whose trailing whitespace has a newline followed by spaces that the prefix/indent pattern overwrites with a non-space) are "
-    "attributed to the finding; any other disagreement is a violation",
+    "The former cut for inputs on which v1.Indent did not terminate (non-blank prefix, empty indent; finding KF-C09-indent-trailing-ws) was removed after fix 4952b30: those inputs are explored again and a disagreement anywhere is a violation",
     "error values are compared only for presence (nil / non-nil); SyntaxError text and Offset are not compared",
 ]
 
